@@ -27,19 +27,20 @@ func init() {
 }
 
 type scScenario struct {
-	Name    string `json:"name"`
-	Op      string `json:"op"` // init add update setadmin remove auth exists list listfull check
-	User    string `json:"user"`
-	Admin   bool   `json:"admin"`
-	NewPw   string `json:"newpw"`
-	OldPw   string `json:"oldpw"`
-	AuxLen  int    `json:"auxlen"`
-	AuxKind string `json:"auxkind"`
-	NoTmp   bool   `json:"notmp"`
-	TmpKind string `json:"tmpkind"` // "" dir | file | dangling | otherfs
-	Algo    string `json:"algo"`    // default set algorithm: scrypt | argon
-	Empty   bool   `json:"empty"`
-	WasAdm  bool   `json:"wasadmin"`
+	Name     string `json:"name"`
+	Op       string `json:"op"` // init add update setadmin remove auth exists list listfull check
+	User     string `json:"user"`
+	Admin    bool   `json:"admin"`
+	NewPw    string `json:"newpw"`
+	OldPw    string `json:"oldpw"`
+	AuxLen   int    `json:"auxlen"`
+	AuxKind  string `json:"auxkind"`
+	NoTmp    bool   `json:"notmp"`
+	TmpKind  string `json:"tmpkind"` // "" dir | file | dangling | otherfs
+	Algo     string `json:"algo"`    // default set algorithm: scrypt | argon
+	Empty    bool   `json:"empty"`
+	WasAdm   bool   `json:"wasadmin"`
+	LinkHash bool   `json:"linkhash"` // <user>.user is a symlink to <dir>/outside/<user>.user
 }
 
 func scScenarios() []scScenario {
@@ -69,6 +70,8 @@ func scScenarios() []scScenario {
 		// the work area is a link to a directory on another file system: rename(2) from it fails with EXDEV
 		scScenario{Name: "update-tmp-otherfs", Op: "update", User: "alice", OldPw: "alice-old", NewPw: "alice-new", AuxLen: 5000, Algo: "scrypt", TmpKind: "otherfs"},
 		scScenario{Name: "add-user-tmp-otherfs", Op: "add", User: "bob", NewPw: "bob-new", Algo: "argon", TmpKind: "otherfs"},
+		// the user's hash file is a symbolic link to a file kept outside the base directory
+		scScenario{Name: "update-hashfile-symlink", Op: "update", User: "alice", OldPw: "alice-old", NewPw: "alice-new", AuxLen: 100, Algo: "scrypt", LinkHash: true},
 		scScenario{Name: "setadmin-up", Op: "setadmin", User: "alice", Admin: true, OldPw: "alice-old", AuxLen: 50, Algo: "scrypt"},
 		scScenario{Name: "setadmin-down", Op: "setadmin", User: "carol", Admin: false, OldPw: "carol-old", AuxLen: 50, Algo: "scrypt", WasAdm: true},
 		scScenario{Name: "setadmin-same", Op: "setadmin", User: "carol", Admin: true, OldPw: "carol-old", Algo: "scrypt", WasAdm: true},
@@ -177,6 +180,17 @@ func scprep() {
 		plant("alice", ".user", "alice-old", int(def), auxA)
 		plant("carol", ".admin", "carol-old", 3-int(def), auxC)
 		plant("dave", ".user", "dave-old", 3-int(def), []byte("totp: REFWRQ==\n"))
+		if sc.LinkHash {
+			out := filepath.Join(dir, "outside")
+			os.MkdirAll(out, 0700) //nolint:errcheck
+			for _, ext := range []string{".user", ".admin"} {
+				p := filepath.Join(base, sc.User+ext)
+				if _, err := os.Stat(p); err == nil {
+					os.Rename(p, filepath.Join(out, sc.User+ext))  //nolint:errcheck
+					os.Symlink(filepath.Join(out, sc.User+ext), p) //nolint:errcheck
+				}
+			}
+		}
 		switch {
 		case sc.TmpKind == "file":
 			os.WriteFile(filepath.Join(base, ".tmp"), []byte("not a directory\n"), 0600) //nolint:errcheck
